@@ -12,6 +12,10 @@ COMPONENTS = {
         "real_code": ["the unmodified injectorpp crate from /repo", "Linux kernel memory management", "x86-64 CPU executing the patched code"],
         "stubbed": ["mmap/munmap/mprotect/__clear_cache symbols interposed by the harness executable (forwarding to the kernel; injected failures are stubbed returns)"],
     },
+    "C": {
+        "real_code": ["macro_rules! fake from src/interface/macros.rs expanded by rustc in generated programs linked against the unmodified injectorpp rlib", "x86-64 CPU, Linux"],
+        "stubbed": [],
+    },
     "T": {
         "real_code": ["src/** from the working tree with std::sync swapped for simsched::sync in src/interface", "real machine-code patching of real functions"],
         "stubbed": ["thread scheduler (simsched decides every interleaving at Mutex/atomic operations)"],
@@ -74,6 +78,13 @@ PLAN = {
         "rule": "histories of 2-6 injector lifetimes that evaluate the same fake!(..., times: N) expression (one helper per site), N and call counts redrawn per lifetime, lifetimes ending by drop, verification panic or injected panic; each lifetime is judged by the C06 model on its own calls alone; distinct = (site, per-lifetime (N, matching, rejected, exit)) tuples",
         "assumptions": [A_N],
         "parts": [n_part("N-reused-call-sites", "C07", 1600, 160000, selftest=64, extra_args=["--family", "count"])],
+    },
+    "C08": {
+        "level": "other",
+        "rule": "every arm of macro_rules! fake as parsed from src/interface/macros.rs at check time (52 in the pinned tree): one generated well-typed instantiation per arm (function kind x unit/non-unit x option subset; out-parameter observed by `returns`, per-call sequence number), compiled separately; 24 (quick) / 2000 (thorough) seeded call scripts per arm (N in 0..4, matching and non-matching calls) compared call by call with a reference model that also predicts process aborts for non-unwinding ABIs; distinct = (arm, N, calls, non-matching) tuples",
+        "assumptions": [A_N, "rustc accept/reject of the generated instantiation stands for 'a well-typed use'; the instantiation uses (a: u32, out: &mut u32 | *mut u32) [-> u32]"],
+        "exhaustive": True,
+        "parts": [{"name": "C-fake-macro-arms", "engine": "C", "py": "c08", "bin": "", "args": [], "count": {"quick": 1, "thorough": 1}}],
     },
     "C09": {
         "level": "fault_enumeration",
